@@ -22,6 +22,8 @@ B == BOOLEAN
 Vm == {D("vm", k, a, b, n, FALSE, "") : k \in {"vm", "pvm"}, a \in {"<", "<=", "=", ">=", ">", "~"},
                                          b \in (IF Full THEN {"1.0", "1.0-r1", "2"} ELSE {"1.0", "1.0-r1"}), n \in B}
 \* b = "alt": glob matches a suffix instead of a prefix, regex uses re.match instead of re.search
+\* version restrictions the way atoms build them: version and Revision object taken from a parsed cpv (b: its spelling)
+CVm == {D("vm", "cvm", a, b, n, FALSE, "") : a \in {"<", "<=", "=", ">=", ">", "~"}, b \in {"1.0", "1.0-r0", "1.0-r1", "1.0-r01"}, n \in (IF Full THEN B ELSE {FALSE})}
 Str == {D("str", k, a, b, n, m, "") : k \in {"exact", "glob", "regex"}, a \in (IF Full THEN {"a", "A", "ab"} ELSE {"a", "A"}), b \in {"", "alt"}, n \in B, m \in B}
 Cont == {D("cont", k, a, "", n, m, "") : k \in {"cm"}, a \in {"a", "a,b", "b,a"}, n \in B, m \in B}
         \cup {D("cont", k, a, "", n, TRUE, "") : k \in {"udc+", "udc-"}, a \in {"a", "a,b", "b,a"}, n \in B}
@@ -44,16 +46,16 @@ AtomVer == {D("atomver", "atom", a, b, n, FALSE, "") : a \in {"=", "~", ">=", ">
 Multi == {D("multi", "multi", a, b, n, FALSE, "") : a \in {"category,package", "package,category", "slot,subslot", "subslot,slot", "category,slot", "category"},
                                                      b \in {"first", "any"}, n \in B}
 \* PackageRestriction / GetAttrRestriction: a: attribute, b: value, n: negate, m: ignore_missing
-PrAttr == {D("prattr", k, a, b, n, m, "") : k \in {"pr", "getattr"}, a \in {"category", "package", "slot"}, b \in {"dev-util", "0"}, n \in B,
-                                             m \in (IF Full THEN B ELSE {FALSE})}
+PrAttr == {D("prattr", k, a, b, n, m, "") : k \in {"pr", "getattr"}, a \in (IF Full THEN {"category", "package", "slot"} ELSE {"category", "slot"}),
+                                             b \in {"dev-util", "0"}, n \in B, m \in B}
 \* Conditional: a: flag of the condition, b: payload members (order varied), n: negate
 Cond == {D("cond", "cond", a, b, n, FALSE, "") : a \in {"a", "b"}, b \in {"1", "2", "12", "21"}, n \in B}
 \* the remaining classes: EqualityMatch, AnyMatch, AlwaysBool, ContainmentMatch2, SubSlotDep, PackageDep, Negate, FakeType
 Misc == {D("misc", k, a, "", n, FALSE, "") : k \in {"eqm", "anym", "always", "cm2", "subslot", "pkgdep", "negate", "faketype"}, a \in {"0", "1"}, n \in B}
 
-Fams == <<Vm, Str, Cont, Pkgr, Use, Atom, Bool, Depset, Func, AtomVer, Multi, PrAttr, Cond, Misc>>
+Fams == <<Vm, CVm, Str, Cont, Pkgr, Use, Atom, Bool, Depset, Func, AtomVer, Multi, PrAttr, Cond, Misc>>
 \* pairs inside a family; version-match and atom pairs only inside the same class / base atom
-Related(x, y) == CASE x.fam = "vm" -> x.k = y.k /\ x.b = y.b
+Related(x, y) == CASE x.fam = "vm" -> x.k = y.k /\ (x.b = y.b \/ x.k = "cvm")
                    [] x.fam = "atom" -> x.a = y.a
                    [] x.fam = "func" -> x.k = y.k
                    [] x.fam = "atomver" -> x.a = y.a
